@@ -277,6 +277,13 @@ def utpm_conv(xd, yd, op):
 # sparse exact multivariate polynomials
 # ---------------------------------------------------------------------------
 
+def _obj_map(f, arr):
+    out = np.empty(arr.shape, dtype=object)
+    for idx in np.ndindex(*arr.shape):
+        out[idx] = f(arr[idx])
+    return out if out.ndim else out.item()
+
+
 class ExactPoly:
     """sparse multivariate polynomial {exponent tuple: Fraction}"""
     __slots__ = ('n', 't')
@@ -305,6 +312,8 @@ class ExactPoly:
         return ExactPoly.const(self.n, Fraction(o))
 
     def __add__(self, o):
+        if isinstance(o, np.ndarray):
+            return _obj_map(lambda e: self + e, o)
         o = self._coerce(o)
         t = dict(self.t)
         for k, v in o.t.items():
@@ -316,12 +325,18 @@ class ExactPoly:
         return ExactPoly(self.n, {k: -v for k, v in self.t.items()})
 
     def __sub__(self, o):
+        if isinstance(o, np.ndarray):
+            return _obj_map(lambda e: self - e, o)
         return self + (-self._coerce(o))
 
     def __rsub__(self, o):
+        if isinstance(o, np.ndarray):
+            return _obj_map(lambda e: e - self, o)
         return self._coerce(o) - self
 
     def __mul__(self, o):
+        if isinstance(o, np.ndarray):
+            return _obj_map(lambda e: self * e, o)
         o = self._coerce(o)
         t = {}
         for k1, v1 in self.t.items():
@@ -330,6 +345,19 @@ class ExactPoly:
                 t[k] = t.get(k, 0) + v1 * v2
         return ExactPoly(self.n, t)
     __rmul__ = __mul__
+
+    def __truediv__(self, o):
+        if isinstance(o, np.ndarray):
+            return _obj_map(lambda e: self / e, o)
+        if isinstance(o, ExactPoly):
+            assert list(o.t.keys()) in ([(0,) * self.n], []), 'division by a non-constant polynomial'
+            o = o.t.get((0,) * self.n, Fraction(0))
+        if isinstance(o, (np.integer,)):
+            o = int(o)
+        if isinstance(o, (np.floating,)):
+            o = float(o)
+        o = Fraction(o)
+        return ExactPoly(self.n, {k: v / o for k, v in self.t.items()})
 
     def __pow__(self, n):
         assert isinstance(n, (int, np.integer)) and n >= 0
